@@ -8,6 +8,7 @@ import (
 	z "github.com/Oudwins/zog"
 	"github.com/Oudwins/zog/conf"
 
+	"zogverif/internal/obs"
 	"zogverif/internal/rng"
 )
 
@@ -68,6 +69,32 @@ func dDefaultCases() []dDefaultCase {
 			second := s.Validate(&b)
 			if second != nil || len(b) != 1 || b[0].Meta["env"] != "prod" || b[0].Nums[0] != 4 {
 				return fmt.Sprintf("second Validate after the caller edited its first result: issues %v, value %+v", z.Issues.SanitizeMap(second), *b[0]), nil, nil
+			}
+			return "", nil, nil
+		}},
+		{"Slice(custom struct{Primary, Fallback *T}).Default with one pointee reached twice (Validate, Parse)", func() (any, func(), any) {
+			type group struct{ Primary, Fallback *dOrder }
+			mk := func() (*z.SliceSchema, *dOrder) {
+				shared := &dOrder{Qty: 1, Note: "shared"}
+				return z.Slice(z.CustomFunc(func(p **group, c z.Ctx) bool { return true })).Default([]*group{{Primary: shared, Fallback: shared}, {Primary: shared}}), shared
+			}
+			for _, mode := range []string{"Validate", "Parse"} {
+				s, shared := mk()
+				var a []*group
+				var is z.ZogIssueMap
+				if mode == "Validate" {
+					is = s.Validate(&a)
+				} else {
+					is = s.Parse(nil, &a)
+				}
+				if is != nil || len(a) != 2 || a[0] == nil || a[0].Primary == nil || a[0].Fallback == nil || a[1].Primary == nil {
+					return fmt.Sprintf("%s: issues %v, value %v", mode, z.Issues.SanitizeMap(is), a), nil, nil
+				}
+				a[0].Primary.Qty, a[0].Fallback.Qty, a[1].Primary.Qty = 70, 80, 90
+				a[0].Fallback.Note = "edited"
+				if shared.Qty != 1 || shared.Note != "shared" {
+					return fmt.Sprintf("%s: writing through the pointers of the value the default was copied to changed the default's own object: %+v", mode, *shared), nil, nil
+				}
 			}
 			return "", nil, nil
 		}},
@@ -183,6 +210,97 @@ func dPreprocessAbsent() (argProblem, successProblem string) {
 		successProblem = fmt.Sprintf("Parse of [7, null] returned no issues although element [1] is null and its schema is Required (destination %q)", codes)
 	}
 	return
+}
+
+// dStructInputs: records given as Go structs - by value, through a pointer, as elements of a slice of pointers - whose type embeds a
+// pointer to a struct that is nil, read by a schema that names a field promoted through it. Parse reads its input; it never writes
+// to it (not even to allocate what it could not find).
+type DAudit struct {
+	Author string
+	Rev    int
+}
+type dDoc struct {
+	*DAudit
+	Title string
+	Tags  []string
+}
+
+func dStructInputs() string {
+	sch := func() *z.StructSchema {
+		return z.Struct(z.Schema{"Title": z.String().Required(), "Author": z.String().Default("nobody"), "Rev": z.Int(), "Tags": z.Slice(z.String())})
+	}
+	in := dDoc{Title: "t", Tags: []string{"a", "b"}}
+	before := obs.Snapshot(&in)
+	var d1, d2 dDoc
+	sch().Parse(in, &d1)
+	sch().Parse(&in, &d2)
+	if in.DAudit != nil || obs.Snapshot(&in) != before {
+		return fmt.Sprintf("Parse(&record, &dest) changed the record it was given to read: the nil embedded pointer is now %+v", in.DAudit)
+	}
+	if d1.DAudit == nil || d2.DAudit == nil || d1.Author != "nobody" || d2.Author != "nobody" || d2.Title != "t" || len(d2.Tags) != 2 {
+		return fmt.Sprintf("destinations after Parse(record) / Parse(&record): %+v (%+v) / %+v (%+v), want Title t, Author nobody (the default), two tags", d1, d1.DAudit, d2, d2.DAudit)
+	}
+	list := []*dDoc{{Title: "x"}, {Title: "y", DAudit: &DAudit{Author: "me"}}}
+	b2 := obs.Snapshot(list)
+	var out []dDoc
+	z.Slice(sch()).Parse(list, &out)
+	if list[0].DAudit != nil || obs.Snapshot(list) != b2 {
+		return fmt.Sprintf("Parse of a []*record changed its elements: element 0 now has the embedded pointer %+v", list[0].DAudit)
+	}
+	if len(out) != 2 || out[0].Author != "nobody" || out[1].Author != "me" {
+		return fmt.Sprintf("Parse of a []*record gave %+v, want authors nobody (default) and me", out)
+	}
+	return ""
+}
+
+// dFormatterSetParams: one execution runs with an issue formatter that puts its own params on the issue (ZogIssue.SetParams) before it
+// formats; the executions before and after it, run without options, give the same message and params: the test keeps its parameters.
+func dFormatterSetParams() string {
+	type rec struct{ Name string }
+	type probe struct {
+		name string
+		run  func(opts ...z.ExecOption) string
+	}
+	str := z.String().Min(3)
+	st := z.Struct(z.Schema{"name": z.String().Max(2).OneOf([]string{"ab", "cd"})})
+	sl := z.Slice(z.Int().GT(5)).Max(1)
+	render := func(l []*z.ZogIssue) string {
+		var out []string
+		for _, e := range l {
+			out = append(out, fmt.Sprintf("%s|%s|%v", e.Path, e.Message, fmt.Sprint(e.Params)))
+		}
+		sortStrings(out)
+		return strings.Join(out, "; ")
+	}
+	flat := func(m z.ZogIssueMap) []*z.ZogIssue {
+		var l []*z.ZogIssue
+		for k, v := range m {
+			if k != "$first" {
+				l = append(l, v...)
+			}
+		}
+		return l
+	}
+	probes := []probe{
+		{"String().Min(3) on ab", func(o ...z.ExecOption) string { var d string; return render(str.Parse("ab", &d, o...)) }},
+		{"Struct{name: String().Max(2).OneOf(ab, cd)} on xyz", func(o ...z.ExecOption) string {
+			var d rec
+			return render(flat(st.Parse(map[string]any{"name": "xyz"}, &d, o...)))
+		}},
+		{"Slice(Int().GT(5)).Max(1) validating [1, 2]", func(o ...z.ExecOption) string { v := []int{1, 2}; return render(flat(sl.Validate(&v, o...))) }},
+	}
+	annotate := z.WithIssueFormatter(func(e *z.ZogIssue, ctx z.Ctx) {
+		e.SetParams(map[string]any{"min": "three", "max": "two", "gt": "five", "field": "username"})
+		conf.DefaultIssueFormatter(e, ctx)
+	})
+	for _, p := range probes {
+		first := p.run()
+		p.run(annotate)
+		if later := p.run(); later != first {
+			return fmt.Sprintf("%s: first use gave [%s]; after one execution whose formatter called e.SetParams(...) the same call gives [%s]", p.name, first, later)
+		}
+	}
+	return ""
 }
 
 func dKeys(m z.ZogIssueMap) string {
